@@ -673,9 +673,9 @@ func init() {
 			return mc.SeqExec(j, c16Run)
 		},
 		Drive: func(c *mc.Ctx) {
-			depth := 3
+			depth := 4
 			if c.Tier == "thorough" {
-				depth = 5
+				depth = 7
 			}
 			st := mc.DriveSeq(c, "bfs", 0, len(c16Keys)*len(c16Kinds), depth)
 			n := len(c16Grammar())
